@@ -34,6 +34,7 @@ func (e *Expr) String() string {
 }
 
 type Clause struct {
+	Internal bool
 	Kind  string // requires ensures invariant decreases alloc
 	E     *Expr
 	Props []string
@@ -65,6 +66,7 @@ type Contract struct {
 	Props     []string
 	Requires  []*Clause
 	Ensures   []*Clause
+	Lets      []*LetDef // `let name = expr`: post-state abbreviations usable in ensures clauses
 	Modifies  []*Expr
 	ModAll    bool // modifies *
 	HasMod    bool
@@ -565,7 +567,7 @@ func (p *parser) primary() (*Expr, error) {
 // file structure
 
 var clauseKeywords = map[string]bool{
-	"contract": true, "assume": true, "requires": true, "ensures": true, "modifies": true,
+	"contract": true, "let": true, "assume": true, "requires": true, "ensures": true, "modifies": true,
 	"invariant": true, "decreases": true, "loop": true, "spec": true, "axiom": true, "ghost": true,
 	"valid": true, "inline": true, "pure": true, "wraps": true, "maypanic": true, "theory": true,
 	"package": true, "import": true, "opaque": true, "split": true, "noeffect": true, "trusted": true,
@@ -676,6 +678,19 @@ func ParseSpecFile(path, defaultPkg string) (*SpecFile, error) {
 			c.File, c.Line = path, it.line
 			sf.Contracts = append(sf.Contracts, c)
 			cur, curLoop, curCase = c, nil, nil
+		case "let":
+			if cur == nil {
+				return nil, fail(fmt.Errorf("let outside contract"))
+			}
+			eq := strings.Index(rest, "=")
+			if eq < 0 {
+				return nil, fail(fmt.Errorf("let: expected name = expr"))
+			}
+			le, err := ParseExpr(strings.TrimSpace(rest[eq+1:]))
+			if err != nil {
+				return nil, fail(err)
+			}
+			cur.Lets = append(cur.Lets, &LetDef{Name: strings.TrimSpace(rest[:eq]), E: le, Src: rest})
 		case "requires", "ensures", "invariant":
 			if cur == nil {
 				return nil, fail(fmt.Errorf("%s outside contract", kw))
@@ -901,6 +916,11 @@ func parseClause(kind, rest string) (*Clause, error) {
 		cl.Assumed = true
 		rest = strings.TrimSpace(rest[len("[abstract]"):])
 	}
+	if strings.HasPrefix(rest, "[internal]") {
+		// checked against the body, not exported to callers (it talks about state callers do not see)
+		cl.Internal = true
+		rest = strings.TrimSpace(rest[len("[internal]"):])
+	}
 	for {
 		rest = strings.TrimSpace(rest)
 		if strings.HasSuffix(rest, "}") {
@@ -1098,6 +1118,15 @@ func parseSpecFunc(rest string) (*SpecFunc, error) {
 		return nil, fmt.Errorf("spec func %s: result sort missing", f.Name)
 	}
 	return f, nil
+}
+
+// LetDef names a post-state expression (old() allowed).  It is evaluated once, bound to a fresh
+// constant with a defining equation, and shared by every ensures clause: nested position
+// expressions stay linear in size.
+type LetDef struct {
+	Name string
+	E    *Expr
+	Src  string
 }
 
 func sortByName(n string) (Sort, error) {
